@@ -101,7 +101,7 @@ def replay(doc):
     rep = lib.Report(PID, "quick", LEVEL, evidence=False)
     with lib.Scratch("c10r") as sc:
         pt.CONSTS = pt.constants(sc)
-        base = {k: case[k] for k in ("id", "kind", "gen", "fmt", "atoms", "spec") if k in case}
+        base = {k: case[k] for k in ("id", "kind", "gen", "fmt", "atoms", "spec", "keep") if k in case}
         rec = fp.record(base)
         res = lib.trace_validate("Trace_FitPdb", "Trace_FitPdb.cfg", [rec], sc, chunks=1)
         rep.add_trace(res, {rec["id"]: rec}, "C10")
